@@ -38,33 +38,47 @@ let slist f l = String.concat " " (List.map f l)
 
 (* trace reading: a trace is a list of cases; each case has a name and lines of tokens *)
 let read_cases (path : string) : (string * string list list) list =
+  (* VERIF_SHARD=k/n : keep only cases whose index is k modulo n (parallel comparison); the lines of
+     the other cases are skipped while reading, so a shard holds 1/n of the trace in memory *)
+  let (sk, sn) =
+    match Sys.getenv_opt "VERIF_SHARD" with
+    | Some s -> (match String.split_on_char '/' s with
+                 | [k; n] -> (int_of_string k, int_of_string n)
+                 | _ -> (0, 1))
+    | None -> (0, 1) in
   let ic = open_in path in
-  let cases = ref [] and cur = ref None in
+  let cases = ref [] and cur = ref None and idx = ref (-1) and keep = ref true in
   let flush () =
     match !cur with
     | Some (n, ls) -> cases := (n, List.rev ls) :: !cases
     | None -> () in
+  let is_case l = String.length l >= 5 && String.sub l 0 5 = "case " in
   (try
      while true do
        let l = input_line ic in
-       let toks = List.filter (fun s -> s <> "") (String.split_on_char ' ' l) in
-       match toks with
-       | [] -> ()
-       | "case" :: n :: _ -> flush (); cur := Some (n, [])
-       | _ -> (match !cur with
-               | Some (n, ls) -> cur := Some (n, toks :: ls)
-               | None -> cur := Some ("anon", [toks]))
+       if is_case l then begin
+         flush (); cur := None;
+         incr idx;
+         keep := (!idx mod sn = sk);
+         if !keep then
+           (match List.filter (fun s -> s <> "") (String.split_on_char ' ' l) with
+            | _ :: n :: _ -> cur := Some (n, [])
+            | _ -> cur := Some ("anon", []))
+       end else if !keep then begin
+         let toks = List.filter (fun s -> s <> "") (String.split_on_char ' ' l) in
+         match toks with
+         | [] -> ()
+         | _ -> (match !cur with
+                 | Some (n, ls) -> cur := Some (n, toks :: ls)
+                 | None ->
+                     (* lines before the first "case": an anonymous case with index 0 *)
+                     if !idx < 0 then begin idx := 0; keep := (0 mod sn = sk) end;
+                     if !keep then cur := Some ("anon", [toks]))
+       end
      done
    with End_of_file -> ());
   flush (); close_in ic;
-  let all = List.rev !cases in
-  (* VERIF_SHARD=k/n : keep only cases whose index is k modulo n (parallel comparison) *)
-  match Sys.getenv_opt "VERIF_SHARD" with
-  | Some s -> (match String.split_on_char '/' s with
-               | [k; n] -> let k = int_of_string k and n = int_of_string n in
-                           List.filteri (fun i _ -> i mod n = k) all
-               | _ -> all)
-  | None -> all
+  List.rev !cases
 
 let mismatches = ref 0
 let records = ref 0
